@@ -184,6 +184,13 @@ def main():
         out["compile_error"] = _exc(e)
         json.dump({"dump": out, "meta": meta}, sys.stdout)
         return
+    # compilation (geometry building, pruning) must not draw from the user-visible generators
+    st, nst = random.getstate(), numpy.random.get_state()
+    post = [random.random().hex(), float(numpy.random.random()).hex()]
+    random.setstate(st)
+    numpy.random.set_state(nst)
+    pure = [random.Random(seed).random().hex(), float(numpy.random.RandomState(seed % (2**32)).random_sample()).hex()]
+    meta["compile_consumed_rng"] = [a != b for a, b in zip(post, pure)]
     meta["deps_raw"] = dep_labels(scenario)
     if spec.get("normalize_deps"):
         meta["normalized_segment"] = normalize_deps(scenario)
@@ -235,28 +242,45 @@ def main():
             if i < 2 and spec.get("steps", 4) > 0:
                 sim_one(scene)
     meta["warm_ok"] = warm_ok
-    seed_all(seed + 1)
-    B = {"scenes": []}
-    first = None
-    for i in range(spec.get("batch", 3)):
-        scene, d = gen_one("B")
-        B["scenes"].append(d)
-        if first is None:
-            first = scene
-    B["next_random"] = [random.random().hex(), float(numpy.random.random()).hex()]
-    F.LOG.clear()
-    try:
-        scenes, total = scenario.generateBatch(2, maxIterations=spec.get("maxIterations", 400))
-        B["batch"] = {"scenes": [canon.dump_scene(s) for s in scenes], "iterations": total}
-    except Exception as e:
-        B["batch"] = {"error": _exc(e)}
-    if first is not None and spec.get("steps", 4) > 0:
-        seed_all(seed + 2)
-        B["sim"] = sim_one(first)
-        B["next_random_after_sim"] = [random.random().hex(), float(numpy.random.random()).hex()]
-    out["B"] = B
+    def stale_binding():
+        ds = scenario.dynamicScenario
+        objs = list(scenario.objects)
+        return any(all(o is not p for p in objs) for o in ds._objects) or (ds._ego is not scenario.egoObject)
+
+    def phase_B():
+        seed_all(seed + 1)
+        B = {"scenes": []}
+        first = None
+        for i in range(spec.get("batch", 3)):
+            scene, d = gen_one("B")
+            B["scenes"].append(d)
+            if first is None:
+                first = scene
+        B["next_random"] = [random.random().hex(), float(numpy.random.random()).hex()]
+        F.LOG.clear()
+        try:
+            scenes, total = scenario.generateBatch(2, maxIterations=spec.get("maxIterations", 400))
+            B["batch"] = {"scenes": [canon.dump_scene(s) for s in scenes], "iterations": total}
+        except Exception as e:
+            B["batch"] = {"error": _exc(e)}
+        if first is not None and spec.get("steps", 4) > 0:
+            seed_all(seed + 2)
+            B["sim"] = sim_one(first)
+            B["next_random_after_sim"] = [random.random().hex(), float(numpy.random.random()).hex()]
+        return B
+
+    meta["stale_binding_before_B"] = stale_binding()
+    out["B"] = phase_B()
+    # diagnostic only (not part of the compared dump): the same phase again after undoing what
+    # DynamicScenario._bindTo left behind from the last simulation
+    diag = {}
+    if spec.get("diag_unbind", True):
+        ds = scenario.dynamicScenario
+        ds._objects = list(scenario.objects)
+        ds._ego = scenario.egoObject
+        diag["B_unbound"] = phase_B()
     meta["clock_calls"] = clock.calls
-    json.dump({"dump": out, "meta": meta}, sys.stdout)
+    json.dump({"dump": out, "meta": meta, "diag": diag}, sys.stdout)
 
 
 if __name__ == "__main__":
